@@ -31,6 +31,7 @@ REGISTRY = {
     "C02": ("codec", "run_c02"),
     "C03": ("gateway", "run_c03"),
     "C05": ("gateway", "run_c05"),
+    "C09": ("flushrace", "run_c09"),
     "C17": ("stream", "run_c17"),
     "C18": ("mqtt", "run_c18"),
 }
